@@ -15,8 +15,8 @@ HEADER = b"\x00\x01\x00\x01\x00\x02\x00"
 POS_DELTAS = list(range(-7, 2))  # block start relative to a buffer boundary: header straddles it in every possible way
 
 
-def block_bytes(idx, key, long_):
-    s = [tlv.short(1, 8 if idx % 2 else 0), tlv.short(2, 1000 + idx), tlv.integer(3, 60000 + idx), tlv.ptr(26, b"GET", 16)]
+def block_bytes(idx, key, long_, vlen=16):
+    s = [tlv.short(1, 8 if idx % 2 else 0), tlv.short(2, 1000 + idx), tlv.integer(3, 60000 + idx), tlv.ptr(26, b"GET", vlen)]
     b = tlv.block(s, patch_size=4096 if long_ else 0)
     if not long_:
         b += b"\x00\x00"
@@ -111,11 +111,23 @@ def build(scn, variant, seed):
     if fill != "zeros":
         img[lo:hi] = filler(rng, hi - lo, fill)
     vis = outer if container == "pe" else inner
+    if vis and pc == "end" and not long_:
+        # the block that ends the stream is "ended by end of data": no terminator, its last byte is the last byte of the stream
+        # ... and its length runs over all residues modulo 4 (the decoded view of a stage is produced dword-wise from the read position)
+        bb[vis[-1]] = block_bytes(vis[-1] + 1, blocks[vis[-1]]["key"], False, vlen=13 + rng.randrange(4))[:-2]
     lens = [len(bb[i]) for i in vis]
     if vis:
         fo = first_offset(lo, hi, lens[0])
         if fo is None:
             offs = place(rng, len(vis), lens, hi - sum(lens) - 600 * (len(lens) - 1), lo, hi + 1)
+            if offs:
+                # the last block ends the image; vary the image length over all residues modulo 4 (dword-wise decoding of the stage)
+                r4 = rng.randrange(4)
+                cut = offs[-1] + lens[-1] - r4
+                if cut > offs[-1] and (len(vis) == 1 or cut > offs[-2] + lens[-2]):
+                    offs[-1] -= r4
+                    hi = offs[-1] + lens[-1]
+                    img = img[:hi]
         else:
             offs = place(rng, len(vis), lens, fo, lo, hi)
         if not offs:
